@@ -9,6 +9,14 @@ COMMON_ASSUMPTIONS = [
 ]
 
 
+def F(name, fuzztime="120s"):
+    """a native go fuzz target: coverage-guided campaign in the thorough tier only (its seed corpus and the
+    committed inputs under harness/props/testdata/fuzz run in every tier through plain_tests)"""
+    return {"name": name, "fuzz": True, "rapid": False, "tiers": ("thorough",),
+            "quick": {"checks": 0, "shards": 1, "fuzztime": "10s"},
+            "thorough": {"checks": 0, "shards": 1, "fuzztime": fuzztime, "timeout": 900}}
+
+
 def T(name, qchecks, tchecks, qshards=1, tshards=16, steps=None, **kw):
     d = {"name": name, "quick": {"checks": qchecks, "shards": qshards}, "thorough": {"checks": tchecks, "shards": tshards}}
     if steps:
@@ -239,8 +247,8 @@ CHECKS = {
         "title": "Signature registry: payload links are write-once, verification is sound",
         "level": "exploration",
         "technique": "stateful property-based testing (rapid state machine) over publish / store / verify on a small key space, with an independent crypto/ecdsa + crypto/rsa verifier as reference oracle and single-field tampering of valid records",
-        "tests": [T("TestC15", 400, 2000, qshards=2, steps=40)],
-        "plain_tests": ["TestRegressC15"],
+        "tests": [T("TestC15", 400, 2000, qshards=2, steps=40), F("FuzzC15Record")],
+        "plain_tests": ["TestRegressC15", "FuzzC15Record"],
         "rule": "cases = rapid state machine (avg 40 steps) over MsgPublishReferencePayloadLink, MsgStoreSignature and the VerifySignature query on 4 addresses (incl. empty) x 4 reference ids (incl. malformed) x 4 links (incl. empty), signatures made with a committed pool of ECDSA P-256 and RSA-2048 keys with self-signed certificates; each stored record is either valid or tampered in exactly one field (signature byte, algorithm swapped, foreign certificate, unsupported algorithm, non-base64 signature, garbage certificate); overwriting of stored signatures and re-publishing of links is frequent. "
                 "Oracle: the raw store value of every published link key never changes and a second publish errors; VerifySignature reports valid iff an independent verification of the stored signature under the stored certificate and algorithm over sha256hex(address:referenceId:storedLink) succeeds, a valid response returns signature / algorithm / certificate / timestamp of the stored object unchanged, and after every valid verification the same query with any other address or reference id must agree with the independent verdict. Non-trivial = a valid record was verified and mutations or re-publishes were checked. Distinct = SHA-256 of the history.",
         "min_nontrivial_fraction": 0.2,
@@ -253,7 +261,8 @@ CHECKS = {
         "title": "No message or query of the custom modules panics on any input",
         "level": "exploration",
         "technique": "property-based fuzzing (rapid) of all 17 message types and 18 query types with boundary field pools restricted to wire-reachable values; oracle = recover() around ValidateBasic, GetSigners (after a passing ValidateBasic), the registered handler and the query method",
-        "tests": [T("TestC20Msgs", 6000, 40000, qshards=2), T("TestC20Queries", 3000, 20000), T("TestC20SigStrings", 2000, 10000)],
+        "tests": [T("TestC20Msgs", 6000, 40000, qshards=2), T("TestC20Queries", 3000, 20000), T("TestC20SigStrings", 2000, 10000), F("FuzzC20VestingStrings"), F("FuzzC15Record")],
+        "plain_tests": ["FuzzC20VestingStrings", "FuzzC15Record"],
         "rule": "messages: one of the 17 Msg types of cfevesting, cfeminter, cfedistributor and cfesignature with every field drawn from its boundary pool - addresses {'', malformed, foreign prefix, 1200 chars, module, vesting, fresh, gov, owner}, Int {absent (nil), 0, -1, 2^255, 2^256-1, 10^30, small}, Dec {absent, 0, -0.1, 2, 1, 10^-18, pct}, strings {'', 1 char, 5000 chars, control characters, valid names}, Coins {absent, empty, nil amount, zero, duplicates, unsorted, negative, bad denom, valid}, durations/times {0, -1, 1, max}, minters with absent / every concrete config and boundary amounts, sub-distributors absent or with arbitrary account types - against 6 states (no pools; pools; a pool whose vesting type is gone; pools past lock end; vesting denomination changed by governance; pools whose coins a governance-installed sub-distributor with the cfevesting module account as source has swept away, before or after lock end). Only wire-reachable values are generated (zero values = omitted fields; no nil entries in repeated fields; every message must survive marshal/unpack with the app codec). "
                 "queries: each of the 18 query methods with the same pools, on 3 states (incl. a traced non-vesting account and stored signature garbage). Non-trivial (messages) = ValidateBasic passed, i.e. the handler ran. Distinct = SHA-256 of (state, message).",
         "min_nontrivial_fraction": 0.3,
